@@ -18,9 +18,9 @@ HDRS = {"x-forwarded-for": b"X-Forwarded-For", "x-forwarded-host": b"X-Forwarded
         "x-forwarded-port": b"X-Forwarded-Port", "x-forwarded-by": b"X-Forwarded-By", "forwarded": b"Forwarded"}
 ENVK = {k: "HTTP_" + v.decode().upper().replace("-", "_") for k, v in HDRS.items()}
 TRUSTED = "10.0.0.9"
-GOALS = ["untrusted peer with middleware installed", "headers cleared", "headers passed through (clearing off)", "no middleware installed"]
+GOALS = ["untrusted peer after requests of the trusted proxy", "untrusted peer with middleware installed", "headers cleared", "headers passed through (clearing off)", "no middleware installed"]
 ASSUMPTIONS = ["trusted_proxy '*' is outside the quantifier (property text)", "the peer address differs from trusted_proxy in at least one character"]
-STUBS = ["as C01", "listening socket (never accepts)", "trigger pipe (real os.pipe, closed per path)"]
+STUBS = ["as C01", "socket.getaddrinfo inside waitress.adjustments (as C20)", "listening socket (never accepts)", "trigger pipe (real os.pipe, closed per path)"]
 TEMPLATES = {
     "x-forwarded-for": [b"1.2.3.4", b"\"[::1]\", 10.0.0.9", b":80", b"\""],
     "x-forwarded-host": [b"evil.example:443", b"a,b", b"[::1]:1"],
@@ -37,13 +37,17 @@ CONFIGS = [
     dict(trusted_proxy=TRUSTED, headers=("x-forwarded-for", "x-forwarded-host"), clear=False),
     dict(trusted_proxy=TRUSTED, headers=("forwarded",), clear=True),
     dict(trusted_proxy=TRUSTED, headers=("forwarded",), clear=False),
+    # trusted_proxy without trusted_proxy_headers (deprecated form: X-Forwarded-Proto is trusted implicitly)
+    dict(trusted_proxy=TRUSTED, headers=(), clear=True),
+    dict(trusted_proxy=TRUSTED, headers=(), clear=False),
 ]
 
 
 def BOUNDS(tier):
-    return ("%d configurations (trusted_proxy None / an address, five trusted_proxy_headers sets, trusted_proxy_count 1..4, clearing on/off) x "
+    return ("%d configurations (trusted_proxy None / an address, six trusted_proxy_headers sets incl. the deprecated empty one, trusted_proxy_count 1..4, clearing on/off) x "
             "peer address '10.0.0.<c>', '<trusted><c>' or '<c><trusted>' with <c> symbolic (never equal to the trusted address) x { every proxy header with a fully symbolic value of "
-            "<= %d bytes; hostile templates with a 1-byte window at every position; all six headers present at once }" % (
+            "<= %d bytes; hostile templates with a 1-byte window at every position; all six headers present at once, also after 0..2 requests served to the trusted "
+            "proxy itself (history) }" % (
                 len(CONFIGS), 3 if tier == "quick" else 4))
 
 
@@ -57,6 +61,9 @@ def jobs(tier):
             for ti, t in enumerate(TEMPLATES[kind]):
                 js.append(dict(name="TPL:c%d:%s:t%d" % (ci, kind, ti), fam="TPL", cfg=ci, kind=kind, t=ti))
         js.append(dict(name="ALL:c%d" % ci, fam="ALL", cfg=ci))
+        if CONFIGS[ci]["trusted_proxy"]:
+            # history: the trusted proxy has been served (0..2 requests) before the untrusted peer sends its headers
+            js.append(dict(name="HIST:c%d" % ci, fam="HIST", cfg=ci))
     return js
 
 
@@ -87,13 +94,20 @@ def make_inputs(job):
     else:
         for kind in HDRS:
             hdrs.append((kind, TEMPLATES[kind][0]))
-    return dict(cfg=cfg, peer=peer, hdrs=hdrs)
+    pre = eng.choose(3, "pre") if job["fam"] == "HIST" else 0
+    return dict(cfg=cfg, peer=peer, hdrs=hdrs, pre=pre)
 
 
 def _run(ns, cfg, peer, hdrs):
-    adj = common.make_adj(ns, trusted_proxy=cfg["trusted_proxy"], trusted_proxy_count=cfg["count"],
-                          trusted_proxy_headers=set(cfg["headers"]), clear_untrusted_proxy_headers=cfg["clear"],
-                          log_untrusted_proxy_headers=False)
+    # the settings go through the real Adjustments.__init__ (deprecated forms, defaults and cross-checks included); only getaddrinfo is stubbed
+    from harness import C20
+    m = C20._adj(ns)
+    kw = dict(clear_untrusted_proxy_headers=cfg["clear"], log_untrusted_proxy_headers=False)
+    if cfg["trusted_proxy"]:
+        kw.update(trusted_proxy=cfg["trusted_proxy"], trusted_proxy_count=cfg["count"])
+        if cfg["headers"]:
+            kw["trusted_proxy_headers"] = set(cfg["headers"])
+    adj = m.Adjustments(**kw)
     seen = []
 
     def app(environ, start_response):
@@ -114,6 +128,10 @@ def _run(ns, cfg, peer, hdrs):
 
 
 def scenario(ns, inp):
+    for i in range(inp.get("pre", 0)):
+        # requests of the trusted proxy itself, carrying the kinds it is trusted for (their outcome is C16's subject)
+        kinds = inp["cfg"]["headers"] or ("x-forwarded-proto",)
+        _run(ns, inp["cfg"], TRUSTED, [(k, TEMPLATES[k][0]) for k in kinds])
     a = _run(ns, inp["cfg"], inp["peer"], inp["hdrs"])
     b = _run(ns, inp["cfg"], inp["peer"], [])
     return dict(a=a, b=b)
@@ -153,6 +171,8 @@ def goals(cin, cobs):
         out.append("untrusted peer with middleware installed")
     else:
         out.append("no middleware installed")
+    if cin.get("pre"):
+        out.append("untrusted peer after requests of the trusted proxy")
     a = cobs["a"]
     if a["env"] is not None:
         if cfg["clear"] and all(a["env"][ek] is None for ek in ENVK.values()):
